@@ -604,8 +604,18 @@ def run_case(case):
     return J.fails, classes, nt
 
 
+def _freeze():
+    """plan() runs in the parent just before the worker pool forks: move everything allocated so far
+    (ioflo, hypothesis) out of the collector's reach so that collections in the children do not touch
+    (and copy) the inherited pages - measured 3-10x faster shards on this VM."""
+    import gc
+    gc.collect()
+    gc.freeze()
+
+
 def plan(tier):
     import ioflo.aio.tcp.serving, ioflo.aio.tcp.clienting, ioflo.aio.udp.udping, ioflo.aio.proto.stacking  # noqa: preload before fork
+    _freeze()
     subjects = TCP + ["SocketUdpNb", "GramStack", "UdpStack", "TcpClientStack"]
     return [{"subject": s} for s in subjects]
 
